@@ -22,7 +22,7 @@ Your task: make ONE small, realistic change to the library's non-test source cod
   1. the library still compiles (`go build ./...`) and `go vet` is not required;
   2. the library's EXISTING test suite still passes unchanged: run `cd {wt} && go test -vet=off -count=1 ./...` (a test named TestStore_Dir_OverwriteSymlink_RemovalFailed fails on the original too when run as root; ignore it). Do not edit, delete or add any *_test.go file in the patch;
   3. the property above is now FALSE for some input/configuration/schedule/history, but the change needs something specific to manifest: it must not break the common path that every caller hits, only particular inputs, sizes, orders, configurations, fault placements or interleavings;
-  4. you can demonstrate the break: write a standalone Go test file (package-external where possible, named verif_demo_test.go, placed where it compiles in the worktree) that PASSES on the original code and FAILS on the changed code, because the property is violated (not because of an unrelated API change). Run it both ways to confirm (use `git stash` / `git diff` carefully, or copy the demo aside).
+  4. you can demonstrate the break: write a standalone Go test file (package-external where possible, named verif_demo_test.go, placed where it compiles in the worktree) that PASSES on the original code and FAILS on the changed code, because the property is violated (not because of an unrelated API change). Run it both ways to confirm: save your change with `git diff > /tmp/wt/<your-id>.patch`, revert with `git apply -R`, re-apply with `git apply`. NEVER use `git stash` (the stash is shared between all worktrees of the repository and other agents are working in sibling worktrees).
 {variant}
 Environment: no network. Before every go command export: GOFLAGS=-mod=mod GOPROXY=off GOSUMDB=off GOTOOLCHAIN=local . Go module cache is populated; nothing can be downloaded.
 
